@@ -32,7 +32,7 @@ def alt_actions_of(kind, nA):
     if kind in ("int01", "int1x", "int0x"): return [7, 8, 9][:nA]
     if kind == "probfloat": return [0.125, 0.375, 0.625][:nA]
     if kind == "str": return ["x", "y", "z"][:nA]
-    if kind == "strpre": return "21,2,1".split(",")[:nA]
+    if kind.startswith("strpre"): r = int(kind[6:]); v = "21,2,1".split(",")[:nA]; return v[r % nA:] + v[:r % nA]
     if kind == "strn": return (["x"], ["xy", "yx"], ["xyz", "yzx", "zxy"])[nA - 1] if nA <= 3 else ["xyzw"[i:] + "xyzw"[:i] for i in range(nA)]
     if kind == "tuple": return [tuple(2 if i == j else 0 for i in range(max(nA, 2))) for j in range(nA)]
     if kind == "list": return [[3 if i == j else 0 for i in range(max(nA, 2))] + [7] for j in range(nA)]
@@ -47,7 +47,8 @@ def actions_of(kind, nA):
     if kind == "str": return ["a", "b", "c"][:nA]
     # labels as they come out of a parsed file: a two-character label whose characters are themselves offered labels
     # (CPython shares one-character strings, so '10'[0] IS the label '1' and '10'[1] looks like a probability)
-    if kind == "strpre": return "10,1,0".split(",")[:nA]
+    # the label sits at every position in turn (strpre0..2), so that it is the first answer of some case
+    if kind.startswith("strpre"): r = int(kind[6:]); v = "10,1,0".split(",")[:nA]; return v[r % nA:] + v[:r % nA]
     # labels as long as the action set is large (a string is an atom, never a PMF or an (action, probability) pair)
     if kind == "strn": return (["a"], ["ab", "ba"], ["abc", "bca", "cab"])[nA - 1] if nA <= 3 else ["abcd"[i:] + "abcd"[:i] for i in range(nA)]
     if kind == "tuple": return [tuple(1 if i == j else 0 for i in range(max(nA, 2))) for j in range(nA)]
@@ -123,7 +124,7 @@ def run(ctx):
     cases.sort(key=lambda c: json.dumps(c["case"], sort_keys=True))
     ctx.exhaustive = True
     ctx.sample(cases[len(cases) // 2], limit=1)
-    kinds = ["int01", "int1x", "int0x", "probfloat", "str", "strpre", "strn", "tuple", "list", "sparse"]
+    kinds = ["int01", "int1x", "int0x", "probfloat", "str", "strpre0", "strpre1", "strpre2", "strn", "tuple", "list", "sparse"]
     for c in cases:
         cs = c["case"]; fmt, kw, layout, nA, bs, seed = cs["fmt"], cs["kw"], cs["layout"], cs["nA"], cs["bsize"], cs["seed"]
         for kind in kinds:
